@@ -99,6 +99,17 @@ func (fr *Frame) doCall(in ssa.Instruction, cc *ssa.CallCommon, fv Val, args []V
 			if !fv.NN {
 				e.check("nil", fr.anchor(in), fr.pc, mkNot(mkEq(fv.S, "inil")), e.posOf(in.Pos()), "method call on nil interface")
 			}
+			if T := e.L.soleImplementation(cc.Value.Type()); T != nil {
+				if m := e.L.prog.LookupMethod(T, cc.Method.Pkg(), cc.Method.Name()); m != nil {
+					// declared sole implementation: the dynamic type is T
+					e.assume(mkImp(fr.pc, mkEq(app("itype", fv.S), e.typeTag(T))))
+					e.flag("sole-implementation: " + cc.Value.Type().String() + " is " + T.String())
+					recv := e.unbox(fv, T)
+					recv.T = T
+					recv.NN = true
+					return fr.callResolved(in, m, nil, append([]Val{recv}, args...), resT)
+				}
+			}
 			if sp := e.L.ifaceSpec(cc); sp != nil {
 				all := append([]Val{fv}, args...)
 				return fr.applyContract(in, nil, sp, all, nil, resT, e.L.ifaceKey(cc))
